@@ -208,7 +208,7 @@ def load_known():
 
 
 _HELPERS = {"intval": intval, "nwords": nwords, "len": len, "abs": abs, "any": any, "all": all, "min": min, "max": max,
-            "int": int, "str": str, "isinstance": isinstance, "dict": dict, "list": list, "set": set, "sorted": sorted}
+            "re": re, "int": int, "str": str, "isinstance": isinstance, "dict": dict, "list": list, "set": set, "sorted": sorted}
 
 
 def match_known(prop, ev, why, known):
@@ -224,8 +224,8 @@ def match_known(prop, ev, why, known):
         if "when" in m:
             try:
                 env = dict(_HELPERS)
-                env.update({"e": ev, "why": why})
-                if not eval(m["when"], {"__builtins__": {}}, env):
+                env.update({"e": ev, "why": why, "__builtins__": {}})
+                if not eval(m["when"], env):
                     continue
             except Exception:
                 continue
@@ -317,6 +317,19 @@ class Ctx:
                 f.write(json.dumps(c) + "\n")
         log("[gen] %s: %d cases" % (name, len(cases)))
         return p, len(cases)
+
+    def append_witnesses(self, cases_path, select=None):
+        """appends the witness case of every finding of this property (open: must still be observed and is
+        matched; fixed: must not fail any more) to a case file; returns the number appended"""
+        n = 0
+        with open(cases_path, "a") as f:
+            for k in self.known:
+                if self.prop in k.get("properties", []) and "witness" in k and (select is None or select(k)):
+                    w = dict(k["witness"])
+                    w["witness_of"] = k["id"]
+                    f.write(json.dumps(w) + "\n")
+                    n += 1
+        return n
 
     def drive(self, binary, argv, out_name, timeout=1800, env=None):
         out = self.path(out_name)
